@@ -317,7 +317,7 @@ func referenceLine(l []byte, bh *Header) error {
 //	    : 2014-08-13T16:02:01.000+00:00
 const (
 	// This is the ISO8601 format used for output.
-	iso8601TimeDateN = "2006-01-02T15:04:05-0700"
+	iso8601TimeDateN = "2006-01-02T15:04:05.999999999-0700"
 
 	// This is the set of ISO8601 formats we accept.
 	// The input values are first converted to a
